@@ -3,8 +3,9 @@
    dict literal — regenerated as well —, the two exits): for EVERY record it returns an antibiotic of
    the table or raises RuntimeError, and which of the two is decided by the first feature that
    carries a known cassette label. *)
-From MV Require Import Base Py PyObj.
+From MV Require Import Base Registry Py PyObj.
 From MV.Gen Require Import Src.
+From MV Require Import SrcEquivRegistry.
 From Coq Require Import Lia String List.
 Import ListNotations.
 Local Open Scope list_scope.
@@ -102,4 +103,35 @@ Theorem find_resistance_none r :
 Proof.
   intros H. rewrite find_resistance_eq. induction H as [|g fs Hg _ IH]; cbn [resistance_spec]; [reflexivity|].
   rewrite Hg. exact IH.
+Qed.
+
+(* ---------- the items of the registries ------------------------------------------------------------------ *)
+
+(* "the item found ... holds ... a known antibiotic resistance": whatever EmbeddedRegistry.__getitem__
+   and FilesystemRegistry.__getitem__ as regenerated return carries an antibiotic of the table *)
+Theorem embedded_item_resistance self k it : Forall loadable (emb_archive self) ->
+  EmbeddedRegistry_getitem self k = Ok it ->
+  exists a, ib_resistance (item_body it) = Some a /\ In a (map snd _ANTIBIOTICS_).
+Proof.
+  intros Hl. rewrite (EmbeddedRegistry_getitem_eq self k Hl).
+  destruct (emb_lookup String.eqb (emb_index self) k) as [[nm id]|]; [|discriminate].
+  destruct (find (fun e => String.eqb (gr_id (te_record e)) k) (rev (emb_archive self))) as [e|] eqn:Ef; [|discriminate].
+  intros H. inversion H; subst it. clear H.
+  apply find_some in Ef. destruct Ef as [Hin _]. apply in_rev in Hin.
+  rewrite Forall_forall in Hl. destruct (Hl e Hin) as [[a Ha] _].
+  unfold item_of, mk_Item. cbn [item_body ib_resistance]. rewrite Ha.
+  unfold find_resistance in Ha. destruct (find_resistance_known _ _ Ha) as [x [Hx Hi]]. exists x. subst a. auto.
+Qed.
+
+Theorem filesystem_item_resistance self k it :
+  FilesystemRegistry_getitem self k = Ok it ->
+  exists a, ib_resistance (item_body it) = Some a /\ In a (map snd _ANTIBIOTICS_).
+Proof.
+  rewrite FilesystemRegistry_getitem_eq.
+  destruct (fs_lookup String.eqb splitext_stem (glob_matches (fsr_exts self)) (fs_listing self) k) as [n|]; [|discriminate].
+  destruct (fs_open self n) as [r|x]; cbn [bind]; [|discriminate].
+  destruct (grec_entity (grec_set_id r (splitext_stem n))) as [ent|x]; cbn [bind]; [|discriminate].
+  destruct (find_resistance (grec_set_id r (splitext_stem n))) as [res|x] eqn:Er; cbn [bind]; [|discriminate].
+  intros H. inversion H; subst it. clear H. unfold mk_Item. cbn [item_body ib_resistance].
+  unfold find_resistance in Er. destruct (find_resistance_known _ _ Er) as [a [Ha Hi]]. exists a. subst res. auto.
 Qed.
